@@ -399,9 +399,38 @@ func writeTo(fr *frame, w value, s value) {
 	case structure:
 		switch {
 		case strings.HasSuffix(ts, "formatting.IndentedWriter") || (ts == "" && len(st) == 5):
-			// IndentedWriter{indentLevel, indentString, indentPending, writer, buf}: forward, indentation not modelled
-			fr.i.ex.wroteIndented = true
-			writeTo(fr, st[3], s)
+			// IndentedWriter{indentLevel, indentString, indentPending *bool, writer, buf}: the indentation
+			// algorithm of (*IndentedWriter).Write applied to the rope (atoms contain no newline)
+			level := int(asInt64(st[0]))
+			indent := strings.Repeat(fr.i.ex.concStr(st[1]), level)
+			pend := st[2].(*value)
+			pending := (*pend).(bool)
+			var out value = ""
+			for _, part := range strOf(strOf(s).norm()).parts {
+				if part.atom != nil {
+					if pending {
+						out = concatStr(out, indent)
+						pending = false
+					}
+					out = concatStr(out, symStr{[]strPart{part}})
+					continue
+				}
+				var b strings.Builder
+				for i := 0; i < len(part.lit); i++ {
+					c := part.lit[i]
+					if pending && c != '\n' {
+						b.WriteString(indent)
+						pending = false
+					}
+					b.WriteByte(c)
+					if c == '\n' {
+						pending = true
+					}
+				}
+				out = concatStr(out, b.String())
+			}
+			*pend = pending
+			writeTo(fr, st[3], out)
 			return
 		case strings.HasSuffix(ts, "bytes.Buffer"), strings.HasSuffix(ts, "strings.Builder"):
 			st[0] = concatStr(bufContent(st[0]), s)
@@ -702,6 +731,20 @@ func init() {
 		s := fr.i.ex.strs(a)
 		return strings.TrimSuffix(s[0], s[1])
 	}
+	I["strings.Count"] = func(fr *frame, a []value) value {
+		s := fr.i.ex.strs(a)
+		return strings.Count(s[0], s[1])
+	}
+	I["strings.LastIndex"] = func(fr *frame, a []value) value {
+		s := fr.i.ex.strs(a)
+		return strings.LastIndex(s[0], s[1])
+	}
+	I["strings.Fields"] = func(fr *frame, a []value) value { return toValues(strings.Fields(fr.i.ex.concStr(a[0]))) }
+	I["strings.EqualFold"] = func(fr *frame, a []value) value {
+		s := fr.i.ex.strs(a)
+		return strings.EqualFold(s[0], s[1])
+	}
+	I["strings.Title"] = func(fr *frame, a []value) value { return strings.Title(fr.i.ex.concStr(a[0])) }
 	I["strings.Index"] = func(fr *frame, a []value) value {
 		s := fr.i.ex.strs(a)
 		return strings.Index(s[0], s[1])
